@@ -91,6 +91,7 @@ def faulty(case, res):
         b.faulty = []
         b.start()
         w = dict(b.DEFAULT_WEIGHTS, fault=7, unstall=2, acceptfail=2, connect=4, change=20, add=14, fetch=10)
+        w.update(prm.get("weights") or {})
         names = sorted(w)
         for _ in range(prm.get("n_ops", 70)):
             op = rng.choices(names, [w[k] for k in names])[0]
